@@ -294,6 +294,11 @@ def evpn_route_bytes(r):
     elif t == 4:
         ipb = ip_bytes(v['ip'])
         b = rd_bytes(v['rd']) + esi_bytes(v['esi']) + bytes([len(ipb) * 8]) + ipb
+    elif t == 5:
+        # RFC 9136: RD, ESI, Ethernet tag, prefix length, prefix and gateway (both 4 or both 16 octets), label
+        addr, plen = v['prefix'].split('/')
+        b = rd_bytes(v['rd']) + esi_bytes(v['esi']) + struct.pack('!I', v['eth_tag_id']) + bytes([int(plen)]) + ip_bytes(addr) + \
+            ip_bytes(v['gateway']) + label_bytes(v['label'])
     else:
         raise ValueError(t)
     return bytes([t, len(b)]) + b
